@@ -11,6 +11,7 @@ import AbtemVerif.Lib.Partition
 import Mathlib.Tactic.Ring
 import Mathlib.Tactic.Linarith
 import Mathlib.Data.List.Forall2
+import Mathlib.Data.Rat.Floor
 
 namespace AbtemVerif.Props.C18
 open AbtemVerif.Chunks AbtemVerif.Py AbtemVerif.Gen.Chunks AbtemVerif
@@ -842,6 +843,34 @@ theorem auto_all_within_limit (shape : List Int) (c : Int) (hs : ∀ n ∈ shape
 
 example : validateChunks [7, 9] (.int 10) none = .ok [[3, 3, 1], [3, 3, 3]] ∧
     (([[3, 3, 1], [3, 3, 3]] : List (List Int)).map maxOf).foldl (· * ·) 1 ≤ 10 := by decide +kernel
+
+/-! ### `max_elements` given in bytes -/
+
+lemma rat_floor_eq (q : Rat) : q.floor = ⌊q⌋ := rfl
+
+/-- **Element limit from a byte budget**: for `max_elements="auto"` (dask's configured chunk size) and for a byte string,
+with a dtype of `itemsize ≥ 1` bytes, the limit is `⌊bytes / itemsize⌋` elements, so a block within the limit
+(`auto_all_within_limit`) occupies at most the byte budget. -/
+theorem auto_max_elements_spec (nbytes itemsize : Nat) (hi : 1 ≤ itemsize) :
+    autoMaxFromConfig (nbytes : Rat) (itemsize : Rat) = (nbytes / itemsize : Nat) ∧
+    autoMaxFromString (nbytes : Rat) (itemsize : Rat) = (nbytes / itemsize : Nat) ∧
+    (nbytes / itemsize) * itemsize ≤ nbytes := by
+  have hfl : ((nbytes : Rat) / (itemsize : Rat)).floor = ((nbytes / itemsize : Nat) : Int) := by
+    rw [rat_floor_eq]
+    have := Rat.floor_intCast_div_natCast (nbytes : Int) itemsize
+    simpa using this
+  have hnn : (0 : Rat) ≤ (nbytes : Rat) / (itemsize : Rat) := by positivity
+  have hfn : ((nbytes : Rat)).floor = (nbytes : Int) := by
+    rw [rat_floor_eq]; exact_mod_cast Int.floor_natCast (R := Rat) nbytes
+  refine ⟨?_, ?_, Nat.div_mul_le_self _ _⟩
+  · unfold autoMaxFromConfig pyFloor pyInt
+    rw [hfn]
+    simp only [Int.cast_natCast, hnn, if_true, hfl]
+  · unfold autoMaxFromString pyFloor pyInt
+    rw [hfl]
+    have h0 : (0 : Rat) ≤ (((nbytes / itemsize : Nat) : Int) : Rat) := by positivity
+    simp only [h0, if_true]
+    rw [rat_floor_eq]; exact_mod_cast Int.floor_natCast (R := Rat) (nbytes / itemsize)
 
 /-! ### non-vacuity: concrete instances of hypotheses and conclusions -/
 example : validateChunks [7, 9] (.int 10) none = .ok [[3, 3, 1], [3, 3, 3]] := by decide +kernel
